@@ -231,7 +231,15 @@ def check_array(X, kind, acc, case, only=None):
             acc.n("traces")
             acc.n("transitions")
             try:
-                arr = pnd.integer_ndarray(X.copy())
+                lay = (case["idx"] if isinstance(case.get("idx"), int) else 0) % 3 if X.ndim >= 2 else 0
+                if lay == 1:
+                    arr = pnd.integer_ndarray(np.asfortranarray(X))
+                elif lay == 2:
+                    big = np.zeros(X.shape[:-1] + (2 * X.shape[-1],), dtype=X.dtype)
+                    big[..., ::2] = X
+                    arr = pnd.integer_ndarray(big)[..., ::2]
+                else:
+                    arr = pnd.integer_ndarray(X.copy())
                 got = arr.ndint_compress(method=method, axis=axis)
             except BaseException as e:
                 acc.violation(None, cs, {"what": "ndint_compress raised", "exc": repr(e), "array": X.tolist()})
